@@ -54,7 +54,9 @@ TSearchStart ==
        /\ cur' = [active |-> TRUE, dom |-> dom, open |-> (IF dom THEN Legal(p) # {} ELSE FALSE), fam |-> (dom /\ InFamily(p)),
                   depth |-> e.depth, fresh |-> e.fresh, cancelled |-> (e.cancel_at >= 0 \/ e.stop_after_ms >= 0),
                   hist |-> { Ident(Norm(e.history[i])) : i \in 1..Len(e.history) }, n |-> 0, mate |-> FALSE, first |-> e.root, firstOk |-> FALSE, fen |-> ToFen(p),
-                  workers |-> e.workers, seed |-> e.seed, tag |-> e.tag, observed |-> ~e.drop_receiver]
+                  workers |-> e.workers, seed |-> e.seed, tag |-> e.tag, observed |-> ~e.drop_receiver,
+                  \* every legal move of the root re-enters a recorded position: each such line is a draw, so is the root
+                  allHist |-> (IF dom /\ Len(e.history) > 0 THEN (Legal(p) # {} /\ \A m \in Legal(p) : Ident(Apply(p, m)) \in { Ident(Norm(e.history[i])) : i \in 1..Len(e.history) }) ELSE FALSE)]
 
 TReport ==
   /\ IsEvent("Report")
@@ -62,6 +64,7 @@ TReport ==
        /\ (IF ~cur.dom THEN TRUE ELSE
            /\ Diag("C04", cur.open, [kind |-> "a move was reported for a position without legal moves", pos |-> cur.fen])
            /\ Diag("C03", Len(e.line) > 0, [kind |-> "empty line reported", pos |-> cur.fen])
+           /\ Diag("C17", ~cur.allHist \/ e.eval = 0, [kind |-> "every move of the root re-enters a recorded position but the line is not valued as a draw", pos |-> cur.fen, eval |-> e.eval, seed |-> cur.seed, workers |-> cur.workers, tag |-> cur.tag])
            /\ (IF ~cur.open \/ Len(e.line) = 0 THEN TRUE ELSE
                 LET bad == FirstBad(pos, e.line, 1) IN
                 /\ Diag("C03", bad = 0, [kind |-> "reported line is not legal", pos |-> cur.fen, index |-> bad, mv |-> Lan(e.line[IF bad = 0 THEN 1 ELSE bad]),
@@ -82,6 +85,7 @@ TSearchEnd ==
        /\ Diag("C04", e.status = "ok", [kind |-> "search did not end normally", pos |-> cur.fen, status |-> e.status, msg |-> (IF "msg" \in DOMAIN e THEN e.msg ELSE ""), seed |-> cur.seed, workers |-> cur.workers, tag |-> cur.tag])
        /\ Diag("C04", e.ms_after_cancel <= HangMs, [kind |-> "search did not return within the hang-detector limit after Stop", pos |-> cur.fen, ms |-> e.ms_after_cancel, tag |-> cur.tag])
        /\ (IF ~(cur.dom /\ e.status = "ok") THEN TRUE ELSE
+           /\ Diag("C17", ~cur.allHist \/ cur.n >= 1, [kind |-> "root whose every move re-enters a recorded position was treated as having no moves (no report)", pos |-> cur.fen, seed |-> cur.seed, tag |-> cur.tag])
            /\ Diag("C03", (cur.open /\ cur.observed) => cur.n >= 1, [kind |-> "search of a position with legal moves ended without any report", pos |-> cur.fen, seed |-> cur.seed, tag |-> cur.tag])
            /\ (IF ~(cur.fam /\ ~cur.cancelled /\ cur.depth >= 1) THEN TRUE ELSE
                 \* completeness half of C06: fresh memory, no history, forced mate within the depth limit
